@@ -84,7 +84,7 @@ fn set<'a>(ont: &'a Ontology, ids: &[u32]) -> HpoSet<'a> {
 
 type V = Option<(String, String, String)>;
 
-/// All checks for one matrix under one id assignment. `a_ids`/`b_ids` ascending.
+// (check_matrix below: all checks for one matrix under one id assignment)
 thread_local! {
     /// a second Ontology instance with the same content as the one in use (built from the same facts)
     static TWIN: RefCell<Option<Rc<Ontology>>> = RefCell::new(None);
